@@ -384,7 +384,11 @@ fn log_event(s: &mut State, e: Event) {
 // ---------------------------------------------------------------------------------
 
 /// Start a fresh execution: empty ledger, armed.
+/// Number of executions begun so far (read by the hang watchdog).
+pub static EXECUTIONS: core::sync::atomic::AtomicU64 = core::sync::atomic::AtomicU64::new(0);
+
 pub fn begin_execution(parity_odd: bool) {
+    EXECUTIONS.fetch_add(1, core::sync::atomic::Ordering::Relaxed);
     let s = st();
     s.armed = true;
     s.in_subject = false;
